@@ -49,11 +49,22 @@ def build(rng, i, n, order, grace, kinds=ALL_KINDS, transport="u", tail=None):
             r.version, r.conn = "1.0", "keep-alive"        # identity framing is forced
         elif vk == 1:
             r.headers.append(("TE", "identity"))
+        # Expect: 100-continue in a pipeline (the client sends the body at once): the interim response belongs to THIS
+        # request's place in the sequence, like its final response
+        # (only on the LAST request of the pipeline: a request with an expected body holds the connection's reader until
+        # its body is read, so nothing behind it could be collected before the answering starts)
+        if fr == "cl" and vk > 1 and k == n - 1 and tail is None and rng.chance(2, 3):
+            r.expect = rng.choice(["100-continue", "100-Continue"])
         stream += r.render()
         fin, st, rb = finisher(rng, tag, kinds)
         reads = rng.choice([[], [], [(None, 512)]])
+        if r.expect and rng.chance(2, 3):
+            reads = [(None, 512)]
         acts.append(action_str(reads, fin))
         wu.append(hx(r.target))
+        if r.expect and reads:
+            ws.append("100")
+            wrb.append("~")
         if st is None:
             continue          # the raw writer was dropped untouched: this request contributes no bytes
         ws.append(st)
